@@ -43,7 +43,7 @@ MODELS = {}
 def model(*suffixes, places=()):
     def deco(f):
         for s in suffixes:
-            MODELS[s] = (f, set(places))
+            MODELS[FX.norm_paths(s)] = (f, set(places))
         return f
 
     return deco
@@ -767,12 +767,12 @@ def m_serialize(I, a, e, ci):
     return Opaque("result", ok=UNIT, desc="serialize-into-fixed-buffer")
 
 
-@model("ark_std::io::Cursor::<T>::new")
+@model("io::Cursor::<T>::new")
 def m_cursor_new(I, a, e, ci):
     return Opaque("cursor", inner=a[0], writes=[])
 
 
-@model("ark_std::io::Cursor::<T>::into_inner")
+@model("io::Cursor::<T>::into_inner")
 def m_cursor_inner(I, a, e, ci):
     c = a[0]
     return Bytes(list(c.info.get("writes", []))) if isinstance(c, Opaque) else c
